@@ -26,6 +26,37 @@ impl std::io::Write for BudgetSink {
 	}
 }
 
+/// A sink that never fails but accepts at most `max` bytes per `write` call and keeps `Write`'s
+/// default `write_vectored` (which forwards one buffer only): what reaches it must not depend on
+/// that - any `write` whose count is dropped, where `write_all` is meant, shows as missing bytes.
+pub struct ShortSink {
+	pub buf: Vec<u8>,
+	pub max: usize,
+}
+impl std::io::Write for ShortSink {
+	fn write(&mut self, b: &[u8]) -> std::io::Result<usize> {
+		let n = b.len().min(self.max);
+		self.buf.extend_from_slice(&b[..n]);
+		Ok(n)
+	}
+	fn flush(&mut self) -> std::io::Result<()> {
+		Ok(())
+	}
+}
+
+/// `to_datum_vec`, through a `Vec` (even `sel`) or through a `ShortSink` (odd `sel`).
+pub fn datum_vec_sel<T: serde::Serialize + ?Sized>(
+	v: &T,
+	config: &mut serde_avro_fast::ser::SerializerConfig,
+	sel: usize,
+) -> Result<Vec<u8>, serde_avro_fast::ser::SerError> {
+	if sel % 2 == 0 {
+		serde_avro_fast::to_datum_vec(v, config)
+	} else {
+		serde_avro_fast::to_datum(v, ShortSink { buf: vec![], max: 1 + (sel / 2) % 5 }, config).map(|s| s.buf)
+	}
+}
+
 /// Oracle table for the parameter functions (`f64 as f32`, rust_decimal), evaluated on the
 /// points this case can reach.
 pub fn ext_entries(w: &mut W, schema: &RawSchema, v: &SV) {
@@ -187,7 +218,7 @@ pub fn run_rt(line: &str) -> Result<String, String> {
 	if allow_slow {
 		config.allow_slow_sequence_to_bytes();
 	}
-	Ok(match serde_avro_fast::to_datum_vec(&v, &mut config) {
+	Ok(match datum_vec_sel(&v, &mut config, line.len()) {
 		Err(_) => "err".into(),
 		Ok(bytes) => {
 			let back = crate::streams::de::run_one(
@@ -506,9 +537,49 @@ pub fn run_reuse(line: &str) -> Result<String, String> {
 		config.allow_slow_sequence_to_bytes();
 	}
 	let mut outs = vec![];
-	for (budget, v) in &ops {
+	for (opi, (budget, v)) in ops.iter().enumerate() {
+		// in between, the configuration is lent to something else that must leave no trace in it:
+		// a container-writer build whose header fails to serialize (a metadata value that is not
+		// bytes), or one that succeeds and is dropped unused
+		match (line.len() + opi) % 4 {
+			1 => {
+				let bad: std::collections::BTreeMap<String, i32> = [("k".to_string(), 1)].into_iter().collect();
+				let r = std::panic::catch_unwind(std::panic::AssertUnwindSafe(|| {
+					serde_avro_fast::object_container_file_encoding::WriterBuilder::new(&mut config)
+						.build_with_user_metadata(Vec::new(), bad)
+						.is_err()
+				}));
+				if !matches!(r, Ok(true)) {
+					outs.push("INTERFERENCE-UNEXPECTED".into());
+				}
+			}
+			3 => {
+				let _ = std::panic::catch_unwind(std::panic::AssertUnwindSafe(|| {
+					let _ = serde_avro_fast::object_container_file_encoding::WriterBuilder::new(&mut config).build(Vec::new());
+				}));
+			}
+			_ => {}
+		}
+		// the property's oracle, on the implementation alone: a fresh configuration gives the same
+		let fresh = std::panic::catch_unwind(std::panic::AssertUnwindSafe(|| {
+			let mut fresh_config = serde_avro_fast::ser::SerializerConfig::new(&schema);
+			if allow_slow {
+				fresh_config.allow_slow_sequence_to_bytes();
+			}
+			match budget {
+				None => match serde_avro_fast::to_datum_vec(v, &mut fresh_config) {
+					Ok(bytes) => format!("ok {}", hex(&bytes)),
+					Err(_) => "err".into(),
+				},
+				Some(b) => match serde_avro_fast::to_datum(v, BudgetSink { buf: vec![], remaining: *b }, &mut fresh_config) {
+					Ok(sink) => format!("ok {}", hex(&sink.buf)),
+					Err(_) => "err".into(),
+				},
+			}
+		}))
+		.unwrap_or_else(|_| "panic".into());
 		let res = std::panic::catch_unwind(std::panic::AssertUnwindSafe(|| match budget {
-			None => match serde_avro_fast::to_datum_vec(v, &mut config) {
+			None => match datum_vec_sel(v, &mut config, line.len() + opi) {
 				Ok(bytes) => format!("ok {}", hex(&bytes)),
 				Err(_) => "err".into(),
 			},
@@ -527,6 +598,7 @@ pub fn run_reuse(line: &str) -> Result<String, String> {
 			supers.iter().map(|l| l.to_string()).collect::<Vec<_>>().join(",")
 		);
 		match res {
+			Ok(s) if s != fresh => outs.push(format!("{s} {pool} FRESH-DIFFERS")),
 			Ok(s) => outs.push(format!("{s} {pool}")),
 			Err(_) => {
 				outs.push("panic".into());
@@ -666,8 +738,10 @@ pub fn run_perm(line: &str) -> Result<String, String> {
 	if allow_slow {
 		config.allow_slow_sequence_to_bytes();
 	}
+	let mut sel = line.len();
 	let mut one = |v: &SV| {
-		std::panic::catch_unwind(std::panic::AssertUnwindSafe(|| match serde_avro_fast::to_datum_vec(v, &mut config) {
+		sel += 1;
+		std::panic::catch_unwind(std::panic::AssertUnwindSafe(|| match datum_vec_sel(v, &mut config, sel) {
 			Ok(bytes) => format!("ok {}", hex(&bytes)),
 			Err(_) => "err".into(),
 		}))
@@ -816,7 +890,11 @@ pub fn run_single(line: &str) -> Result<String, String> {
 		Err(_) => return Ok("freeze-err".into()),
 	};
 	let mut config = serde_avro_fast::ser::SerializerConfig::new(&schema);
-	let msg = serde_avro_fast::to_single_object_vec(&v, &mut config);
+	let msg = if line.len() % 2 == 0 {
+		serde_avro_fast::to_single_object_vec(&v, &mut config)
+	} else {
+		serde_avro_fast::to_single_object(&v, ShortSink { buf: vec![], max: 1 + (line.len() / 2) % 5 }, &mut config).map(|s| s.buf)
+	};
 	let read = |bytes: &[u8], sch: &serde_avro_fast::Schema| -> String {
 		let fmt = |res: Result<AnyOut, serde_avro_fast::de::DeError>| match res {
 			Ok(o) => {
@@ -922,7 +1000,7 @@ pub fn run(line: &str) -> Result<String, String> {
 		config.allow_slow_sequence_to_bytes();
 	}
 	Ok(match budget {
-		None => match serde_avro_fast::to_datum_vec(&v, &mut config) {
+		None => match datum_vec_sel(&v, &mut config, line.len()) {
 			Ok(bytes) => format!("ok {}", hex(&bytes)),
 			Err(_) => "err".into(),
 		},
